@@ -718,6 +718,14 @@ func (w *w4) opHTTPMultipart(id, seq int, op simrt.Op, rr *rand.Rand) {
 			parts = append(parts, w5payload(rr, 1+rr.IntN(2000)))
 		}
 	}
+	// an impatient client that dies half way: two equal parts are announced, the first is sent twice at the same
+	// time (time-out and re-send while the first attempt is still being stored), the second never, and completion
+	// is asked for with the one part there is. The session has seen as many bytes as were announced only if it
+	// counted the same part twice.
+	impatient := nparts == 2 && op.C == 7
+	if impatient {
+		parts[1] = w5Big
+	}
 	var all []byte
 	for _, p := range parts {
 		all = append(all, p...)
@@ -765,7 +773,12 @@ func (w *w4) opHTTPMultipart(id, seq int, op simrt.Op, rr *rand.Rand) {
 			simrt.Sleep(time.Duration(rr.IntN(30)) * time.Second)
 		}
 		path := fmt.Sprintf("/lfs/uploads/%s/parts/%d", initResp.UploadID, i+1)
-		if rr.IntN(8) == 0 {
+		if impatient && i == 1 {
+			simrt.Sleep(5 * time.Second) // (the duplicate of part 1 has been answered by now)
+			w.sim.Probe("c32.completion-after-duplicate-part-only")
+			break
+		}
+		if rr.IntN(8) == 0 || impatient {
 			// an impatient client: the same part is sent a second time while the first attempt is still on
 			// its way (the second request runs as a task of its own)
 			dup := append([]byte(nil), p...)
@@ -854,6 +867,11 @@ func (w *w4) opHTTPMultipart(id, seq int, op simrt.Op, rr *rand.Rand) {
 			return
 		}
 		w.sim.Probe("c32.multipart-success")
+		if impatient {
+			// whatever was accepted, the envelope has to describe the object that is there
+			w.judgeUploadOK(what+" [second part never sent]", rec.Body.Bytes(), nil)
+			return
+		}
 		w.judgeUploadOK(what, rec.Body.Bytes(), all)
 		return
 	}
